@@ -6,6 +6,7 @@
     CURRENT version + show), major compaction under the exclusive lock. All theorems hold
     for EVERY schedule (list of thread ids). *)
 From LsmV Require Import Model.Tree Model.History Model.Conc Proofs.Conc.
+From LsmV Require Model.Leveled Proofs.Leveled.
 Open Scope N_scope.
 
 (** the invariant holds in every reachable state of every schedule (or a compaction strategy violated its stated obligation: c_bad) *)
@@ -209,3 +210,19 @@ Theorem P_C06_reads_unclean_refuted :
 Proof. exact ConcExample.C06_reads_unclean_refuted. Qed.
 Print Assumptions P_C06_reads_unclean_refuted.
 
+
+(** the strategy obligation for the default strategy: no table chosen by Leveled is hidden (owned
+    by another running compaction), for every score outcome - except through the `'trivial_lmax`
+    shortcut, which never consults the hidden set (refuted below; the worker then declines the
+    Move, compaction/worker.rs, so no state changes) *)
+Theorem P_C06_leveled_not_hidden :
+  forall (lvl : nat) (need_new_l1 : bool) (size : table -> N) (l0_threshold target_size : N)
+         (v : version) (hidden : list N),
+    LsmV.Model.Version.version_inv v = true ->
+    forall (ids : list N) (dest : nat),
+      LsmV.Model.Leveled.leveled_trivial_lmax v = None ->
+      LsmV.Model.Leveled.leveled_choose lvl need_new_l1 size l0_threshold target_size v hidden = LsmV.Model.Leveled.LMove ids dest \/
+      LsmV.Model.Leveled.leveled_choose lvl need_new_l1 size l0_threshold target_size v hidden = LsmV.Model.Leveled.LMerge ids dest ->
+      forall id : N, In id ids -> LsmV.Model.Leveled.is_hidden hidden id = false.
+Proof. exact LsmV.Proofs.Leveled.leveled_not_hidden. Qed.
+Print Assumptions P_C06_leveled_not_hidden.
